@@ -1,6 +1,59 @@
 """C05: which of the parser object's scratch dictionaries `DefaultArgsParser.parse` re-initialises
-before it does anything else (read from the source with `ast`)."""
+before it does anything else, and which leniency mode `Command.parse(args, lenient=None)` hands to the
+args parser (both read from the source with `ast`)."""
 import ast
+
+
+def _command_mode(api):
+    """`Command.parse`: the mode given to the parser as a function of the optional `lenient` parameter and of what the
+    command's config answers.  The one shape understood:
+
+        if lenient is None:
+            lenient = self._config.is_lenient_args_parsing_enabled()
+        return self._config.args_parser.parse(args, self._args_format, lenient)
+    """
+    tree, rel = api.parse("api/command/command.py")
+    fn = api.P.find_function(tree, "Command", "parse", rel)
+    a = fn.args
+    names = [x.arg for x in a.args]
+    if (names != ["self", "args", "lenient"] or a.vararg or a.kwarg or a.kwonlyargs or len(a.defaults) != 1
+            or not (isinstance(a.defaults[0], ast.Constant) and a.defaults[0].value is None)):
+        raise api.P.Untranslatable("%s:%d: Command.parse is no longer parse(self, args, lenient=None)" % (rel, fn.lineno))
+    body = [st for st in fn.body if not (isinstance(st, ast.Expr) and isinstance(st.value, ast.Constant))]
+
+    def cfg_call(e, method):
+        # self._config.<method>()
+        return (isinstance(e, ast.Call) and not e.args and not e.keywords and isinstance(e.func, ast.Attribute)
+                and e.func.attr == method and cfg(e.func.value))
+
+    def cfg(e):
+        return (isinstance(e, ast.Attribute) and e.attr in ("_config", "config") and isinstance(e.value, ast.Name)
+                and e.value.id == "self")
+
+    def name(e, n):
+        return isinstance(e, ast.Name) and e.id == n
+
+    ok = len(body) == 2
+    if ok:
+        g, r = body
+        ok = (isinstance(g, ast.If) and not g.orelse and isinstance(g.test, ast.Compare) and name(g.test.left, "lenient")
+              and len(g.test.ops) == 1 and isinstance(g.test.ops[0], ast.Is) and isinstance(g.test.comparators[0], ast.Constant)
+              and g.test.comparators[0].value is None and len(g.body) == 1 and isinstance(g.body[0], ast.Assign)
+              and len(g.body[0].targets) == 1 and name(g.body[0].targets[0], "lenient")
+              and cfg_call(g.body[0].value, "is_lenient_args_parsing_enabled"))
+        ok = ok and (isinstance(r, ast.Return) and isinstance(r.value, ast.Call) and not r.value.keywords
+                     and isinstance(r.value.func, ast.Attribute) and r.value.func.attr == "parse"
+                     and isinstance(r.value.func.value, ast.Attribute) and r.value.func.value.attr == "args_parser"
+                     and cfg(r.value.func.value.value) and len(r.value.args) == 3 and name(r.value.args[0], "args")
+                     and isinstance(r.value.args[1], ast.Attribute) and r.value.args[1].attr in ("_args_format", "args_format")
+                     and name(r.value.args[2], "lenient"))
+    if not ok:
+        raise api.P.Untranslatable("%s:%d: Command.parse does not decide the leniency mode the way the model reads it "
+                                   "(`if lenient is None: lenient = <config setting>`, then the parser call)" % (rel, fn.lineno))
+    return ("/-- `Command.parse(args, lenient=None)`: the mode handed to the args parser - the explicit one when given,\n"
+            "what the command's config answers (`is_lenient_args_parsing_enabled()`) when omitted -/\n"
+            "def commandMode (explicit : Option Bool) (configured : Bool) : Bool :=\n"
+            "  match explicit with\n  | none => configured\n  | some b => b\n")
 
 
 def generate(api):
@@ -100,6 +153,6 @@ def generate(api):
             "/-- `parse()` starts with `self._arguments = OrderedDict()` -/\n"
             "def resetsArguments : Bool := %s\n"
             "/-- `parse()` starts with `self._options = OrderedDict()` -/\n"
-            "def resetsOptions : Bool := %s\n\nend Clikit.Gen.C05\n"
-            % ("true" if reset["_arguments"] else "false", "true" if reset["_options"] else "false"))
+            "def resetsOptions : Bool := %s\n\n%s\nend Clikit.Gen.C05\n"
+            % ("true" if reset["_arguments"] else "false", "true" if reset["_options"] else "false", _command_mode(api)))
     return {"C05.lean": text}
